@@ -94,6 +94,11 @@ pair0_pipe_stop(void *arg)
 	pair0_pipe *p = arg;
 	pair0_sock *s = p->pair;
 
+	// Stop the aios first, so that no callback can run (and mark the
+	// socket readable or writable through this pipe) once we detach it.
+	nni_aio_stop(&p->aio_send);
+	nni_aio_stop(&p->aio_recv);
+
 	nni_mtx_lock(&s->mtx);
 	if (s->p == p) {
 		s->p = NULL;
@@ -111,9 +116,6 @@ pair0_pipe_stop(void *arg)
 		}
 	}
 	nni_mtx_unlock(&s->mtx);
-
-	nni_aio_stop(&p->aio_send);
-	nni_aio_stop(&p->aio_recv);
 }
 
 static void
